@@ -68,7 +68,8 @@ def main():
         print("REJECT: patch does not apply", o)
         return 3
     try:
-        rc, o = sh(f"/tmp/mut/run_tests.sh {wt}")
+        runner = os.path.join(os.path.dirname(os.path.abspath(d.rstrip("/"))), "run_tests.sh")
+        rc, o = sh(f"{runner} {wt}")
         out["tests_same_as_baseline"] = rc == 0
         if rc != 0:
             print("REJECT: test-suite result differs from baseline\n", o[-1500:])
